@@ -292,9 +292,59 @@ def eval_oracle(ctx):
     return s
 
 
+TRUTHY = ["11", "'t2'", "[3]", "(4,)", "{5: 5}", "6.5", "True"]
+FALSY = ["0", "''", "[]", "()", "{}", "None", "0.0"]
+
+
+def boolop_suite(ctx):
+    """remove_redundant_boolop_values on every truth-value mask up to length 6 (7 in the thorough tier), both operators: which operands are kept"""
+    from pyrefact import fixes
+
+    s = Suite("boolop")
+    reqs, metas = [], []
+    max_iter = 5  # processing.fix default (Generated/Consts.lean carries the value read from the running code)
+    try:
+        import inspect
+        from pyrefact import processing
+        max_iter = int(inspect.signature(processing.fix).parameters["max_iter"].default)
+    except Exception:  # noqa: BLE001
+        pass
+    for n in range(2, ctx.n(6, 7) + 1):
+        for mask in itertools.product("tfu", repeat=n):
+            for is_and in (True, False):
+                ops = [TRUTHY[i] if m == "t" else FALSY[i] if m == "f" else f"x{i}" for i, m in enumerate(mask)]
+                src = "r = " + (" and " if is_and else " or ").join(ops) + "\n"
+                reqs.append({"suite": "boolop", "and": is_and, "mask": list(mask), "iter": max_iter})
+                metas.append((mask, is_and, ops, src))
+    for (mask, is_and, ops, src), ans in zip(metas, ctx.driver.ask(reqs)):
+        s.cases += 1
+        try:
+            out = fixes.remove_redundant_boolop_values(src)
+            node = ast.parse(out).body[0].value
+        except Exception as ex:  # noqa: BLE001
+            s.disagreements.append({"src": src, "what": f"remove_redundant_boolop_values raised {ex!r}"})
+            continue
+        values = node.values if isinstance(node, ast.BoolOp) else [node]
+        texts = [ast.unparse(ast.parse(o, mode="eval").body) for o in ops]
+        try:
+            real = [texts.index(ast.unparse(v)) for v in values]
+        except ValueError:
+            s.disagreements.append({"src": src, "out": out, "what": "the result contains an operand that is not one of the operands"})
+            continue
+        if len(real) < len(ops):
+            s.nt(src)
+        if real != ans.get("keep"):
+            s.disagreements.append({"src": src, "out": out, "mask": "".join(mask), "model_keeps": ans.get("keep"), "real_keeps": real,
+                                    "what": "remove_redundant_boolop_values keeps other operands than the model"})
+    s.samples.append({"suite": "boolop", "src": "r = 11 and x1 and [] and x3", "kept": [1, 2]})
+    s.note = ("every mask over {known truthy, known falsy, unknown} of length 2..6 x {and, or} (2 184 chains; distinct literals per position): the operands "
+              "remove_redundant_boolop_values keeps vs keepAnd / keepOr; non-trivial = something is dropped")
+    return s
+
+
 def suites(ctx):
     common.import_pyrefact()
-    return lit_suites(ctx) + [eval_oracle(ctx)]
+    return lit_suites(ctx) + [boolop_suite(ctx), eval_oracle(ctx)]
 
 
 def search(ctx, breaks):
